@@ -2,6 +2,11 @@ NOTES = ("All checks: ./check <ID> --tier quick|thorough, VERIF_SEED respected, 
          "fix: commits in /repo are listed in known_findings.json as fixed entries.")
 NOT_APPLICABLE = {}
 CHECKS = {
+ "C06": {
+  "technique": "Hypothesis differential testing: the same generated module executed with inline-snapshot active (no flags) and with snapshot/Is replaced by the identity; plus real pytest sessions for the disabled modes",
+  "text": "Sequences of 1-8 comparisons (all supported forms, both operand orders, sub-snapshot access, re-evaluation through a function, Is()/inner snapshot wrappers) are logged in both executions and must agree outcome by outcome; a comparison with a different operation than the first must log TypeError. Real sessions check `snapshot(v) is v` under disable / CI / xdist / xfail and equality of pass/fail vectors with and without --inline-snapshot=disable. Exploration.",
+  "note": "user-controlled wrappers only in ==-compared positions (as documented); comparisons that raise on the plain value end the checked prefix of a sequence",
+ },
  "C09": {
   "technique": "Hypothesis property-based testing with exhaustive enumeration of all k! approval orders per generated program (metamorphic: any order == all-at-once, compared as syntax trees)",
   "text": "For every generated program with k >= 2 pending categories every permutation of single-category sessions and the combined session are run from pristine copies and the final syntax trees compared. Exploration over programs, exhaustive over orders.",
